@@ -818,10 +818,14 @@ func (s *ShapeIndex) maybeApplyUpdates() {
 	// is fresh and when updating the status to be fresh. This guarantees
 	// that any thread that sees a status of fresh will also see the
 	// corresponding index updates.
+	verifSchedPoint(0)
 	if atomic.LoadInt32(&s.status) != fresh {
+		verifSchedPoint(1)
 		s.mu.Lock()
 		s.applyUpdatesInternal()
+		verifSchedPoint(2)
 		atomic.StoreInt32(&s.status, fresh)
+		verifSchedPoint(3)
 		s.mu.Unlock()
 	}
 }
